@@ -190,10 +190,19 @@ Proof.
   unfold claim_launchpad_tokens, settle_tickets. intros E.
   apply bind_ok in E. destruct E as (u1 & H1 & E).
   apply bind_ok in E. destruct E as (u2 & H2 & E).
+  apply bind_ok in E. destruct E as (u3 & H3 & E).
   apply bind_ok in E. destruct E as (x & Hx & _).
   apply bind_ok in Hx. destruct Hx as (fl & Hfl & _).
   mon_inv. gate_inv. repeat split; auto.
   destruct (range (st w) (caller e)); [discriminate|discriminate].
+Qed.
+Lemma gate_claim_not_blacklisted sf e w w' :
+  claim_launchpad_tokens sf e w = Ok w' -> blacklisted (st w) (caller e) = false.
+Proof.
+  unfold claim_launchpad_tokens. intros E.
+  apply bind_ok in E. destruct E as (u1 & _ & E).
+  apply bind_ok in E. destruct E as (u2 & _ & E).
+  apply bind_ok in E. destruct E as (u3 & H3 & _). apply require_ok' in H3. apply negb_true_iff in H3. exact H3.
 Qed.
 Lemma gate_claim_payment e w w' : claim_ticket_payment e w = Ok w' -> get_launch_stage e (st w) = Claim.
 Proof. unfold claim_ticket_payment. intros E. apply bind_ok in E. destruct E as (u & Hu & _). gate_inv. auto. Qed.
